@@ -252,7 +252,7 @@ def rule_WR3(rep, prog):
 def rule_MP4(rep, prog):
     rid = rep.rule("C05-MP4", "group notification hand-off works on a closed generation: _dispatch_group_wake detaches the whole notification list with one atomic exchange "
                    "of dg_notify_tail (release) before the first notification block is submitted, and the submission loop never goes back to the live list "
-                   "(dg_notify_head / dg_notify_tail) - a notification registered after the group was re-entered belongs to the next generation", floor=2)
+                   "(dg_notify_head / dg_notify_tail) - a notification registered after the group was re-entered belongs to the next generation", floor=3)
     fn = prog.fn("_dispatch_group_wake")
     rep.saw(fn)
     subs = [c for c in fn.all_insts() if c.op == "call" and c.callee in ("_dispatch_continuation_async", "dx_push", "_dispatch_continuation_push")]
@@ -266,6 +266,13 @@ def rule_MP4(rep, prog):
                 "_dispatch_group_wake submits notification blocks without first detaching the list (atomic exchange of dg_notify_tail with NULL): notifications appended "
                 "while it runs - registered for the NEXT generation after the group was re-entered - are fired at once, before the work they wait for has completed",
                 sample={"exchange": [x.loc for x in xch], "submits": [c.loc for c in subs]})
+    # ... and the detachment comes before the waiters are woken: a woken waiter may start the next generation (enter + notify) at once
+    wakes = calls_named(fn, "_dispatch_wake_by_address")
+    late = [x for x in xch for w in wakes if fn.inst_reaches(w, x)]
+    rep.require(rid, not late, (late[0].loc if late else subs[0].loc), fn.name, "waiters-woken-before-snapshot",
+                "_dispatch_group_wake wakes the threads blocked in dispatch_group_wait before it has detached the notification list: a woken waiter that immediately "
+                "re-enters the group and registers a notification has it linked into the old, not yet captured list and fired while its own enter is outstanding",
+                sample={"wakes": len(wakes)})
     ok2 = not xch or all(x.d.get("ord") in ("release", "acq_rel", "seq_cst") for x in xch)
     rep.require(rid, ok2, (xch[0].loc if xch else subs[0].loc), fn.name, "snapshot-exchange-not-release",
                 "the exchange that detaches the notification list is weaker than release")
